@@ -950,6 +950,12 @@ impl Endpoint {
 
     // # Methods relating to construction.
 
+    /// Verification hook: the shared socket state of this endpoint.
+    #[cfg(iroh_verif)]
+    pub(crate) fn verif_sock(&self) -> Arc<crate::socket::Socket> {
+        self.inner.verif_sock()
+    }
+
     /// Returns the builder for an [`Endpoint`], with the given [`Preset`] configuration.
     pub fn builder(preset: impl Preset) -> Builder {
         Builder::new(preset)
